@@ -28,7 +28,8 @@ def steady_cases(draw, tier="quick"):
          "b0": draw(gen.vec(n)), "B": draw(gen.mat(n, k)), "theta": draw(gen.vec(k, -1, 1)),
          "solver": draw(st.sampled_from(["default", "np_solve", "spsolve", "cg", "lstsq", "user"])),
          "grid": sorted(set(draw(st.lists(st.integers(0, 40), min_size=n, max_size=n, unique=True)))),
-         "obs": draw(st.sampled_from(["equal", "none", "subset", "offnode", "samelen"])),
+         "obs": draw(st.sampled_from(["equal", "none", "subset", "offnode", "samelen"])), "int_ic": draw(st.sampled_from([False, False, True])),
+         "second_parameter": draw(st.booleans()),
          "obs_frac": draw(st.lists(st.floats(0.02, 0.98), min_size=1, max_size=5)),
          "obs_idx": draw(st.lists(st.integers(0, n - 1), min_size=1, max_size=n, unique=True)),
          "omap": draw(st.sampled_from(["none", "square", "first2", "affine"])),
@@ -147,6 +148,21 @@ def run_steady(c, rec):
     u2, _ = pde.solve()
     require(np.linalg.norm(Aof(th2) @ np.asarray(u2) - bof(th2)) <= 1e-8 * (1 + np.linalg.norm(bof(th2))),
             "solution after re-assembly does not satisfy the new system")
+    # the solution grid re-assigned on the live object (public setter): observation follows the grids as they are now
+    if gobs is not None and len(grid) >= 4:
+        grid2 = np.asarray(grid, dtype=float) + 0.25 * np.min(np.diff(np.asarray(grid, dtype=float)))
+        lo, hi = grid2[0], grid2[-1]
+        inside = np.all((np.asarray(gobs) >= lo) & (np.asarray(gobs) <= hi))
+        refused, _ = refuses(lambda: setattr(pde, "grid_sol", grid2.copy()))
+        if not refused and inside:
+            got2 = must(lambda: pde.observe(np.asarray(u2, dtype=float).copy()), "observe after the solution grid was re-assigned")
+            want2 = interp1d(grid2, np.asarray(u2, dtype=float), kind="quadratic")(gobs)
+            if OMAPS[c["omap"]] is not None:
+                want2 = OMAPS[c["omap"]](want2)
+            require(np.asarray(got2).shape == np.asarray(want2).shape and close(got2, want2, 1e-9),
+                    "after assigning a new solution grid observe() is not interpolation from that grid to the observation grid",
+                    got=got2, want=want2)
+            rec.count("grid_sol_reassigned")
 
 
 # ----------------------------------------------------------------------------- time dependent
@@ -194,6 +210,8 @@ def time_parts(c):
     def ic(th, t=0.0):
         # the form returns (operator, source, initial condition) for a time t; the initial condition of the run is the one
         # the form gives at the first time level
+        if c.get("int_ic"):
+            return np.round(3 * u0).astype(int)      # an integer-typed initial profile (step heights, counts)
         return (u0 + C @ th) * (1.0 + 0.5 * t)
     return Aof, fof, ic
 
@@ -220,7 +238,7 @@ def run_time(c, rec):
         tobs_arr = np.array(sorted(times[0] + f * (times[-1] - times[0]) for f in c["tfrac"]))
         tobs = tobs_arr
     tags = {"pde": "time", "method": c["method"], "solver": c["solver"], "obs": c["obs"], "time_obs": c["time_obs"],
-            "omap": c["omap"], "uniform_dt": uniform}
+            "omap": c["omap"], "uniform_dt": uniform, "int_ic": bool(c.get("int_ic")), "second_parameter": bool(c.get("second_parameter"))}
     if rec.classify(tags, (not uniform) or c["obs"] in ("subset", "offnode") or c["omap"] != "none"):
         return
     solver, kw = make_solver(c["solver"])
@@ -237,6 +255,10 @@ def run_time(c, rec):
         calls.append(float(t))
         return Aof(p, t), fof(p, t), ic(p, t)
     pde = must(lambda: cuqi.pde.TimeDependentLinearPDE(form, times, **kwargs), "constructing the PDE")
+    if c.get("second_parameter"):
+        # the same PDE object is first assembled and solved for another parameter (as a forward model is, call after call)
+        pde.assemble(th * 0.5 - 0.3)
+        must(lambda: pde.solve(), "solve (first parameter)")
     pde.assemble(th)
     U, info = must(lambda: pde.solve(), "solve")
     U = np.asarray(U, dtype=float)
